@@ -1,7 +1,7 @@
 //! The `stream` family: a receiver that appends chunks to a buffer and re-parses it through every
 //! entry point after each read. Also the input generators for it (inputs only, no expectations).
 
-use crate::proj::all_entry_points;
+use crate::proj::{all_entry_points, huge_entry_points};
 use crate::util::{flat, rl, unflat, unrl, Rng};
 use serde_json::{json, Value};
 use std::io::Write;
@@ -10,6 +10,9 @@ pub struct Session {
     pub sid: String,
     pub tag: Value,
     pub chunks: Vec<Vec<u8>>,
+    /// after the chunks: the same buffer followed by this many zero bytes (4 GiB and more),
+    /// parsed in place; `m` of them are reported to the specification as the chunk
+    pub huge: Option<(u64, usize)>,
 }
 
 pub fn split_each(bytes: &[u8]) -> Vec<Vec<u8>> {
@@ -58,7 +61,7 @@ pub fn session_from_json(v: &Value, idx: usize) -> Session {
             .unwrap_or_default();
         split_at(&bytes, &cuts)
     };
-    Session { sid, tag: v.get("tag").cloned().unwrap_or(json!({"g": "scenario"})), chunks }
+    Session { sid, tag: v.get("tag").cloned().unwrap_or(json!({"g": "scenario"})), chunks, huge: v.get("huge").map(|h| (h["n"].as_u64().unwrap_or(0) + h["gib"].as_u64().unwrap_or(0) * (1u64 << 30), h["m"].as_u64().unwrap_or(0) as usize)) }
 }
 
 pub fn run_session(s: &Session, out: &mut dyn Write) -> usize {
@@ -76,6 +79,18 @@ pub fn run_session(s: &Session, out: &mut dyn Write) -> usize {
         buf.extend_from_slice(chunk);
         let obs = all_entry_points(&buf, true);
         writeln!(out, "{}", json!({"sid": s.sid, "op": "Recv", "c": rl(chunk), "obs": obs})).unwrap();
+        n += 1;
+        last = obs;
+    }
+    if let Some((pad, m)) = s.huge {
+        // the same buffer followed by n zero bytes: allocated zeroed (never touched beyond the
+        // head), parsed in place; the specification is told about the first m of the zeros
+        let total = buf.len() as u64 + pad;
+        let mut big = vec![0u8; total as usize];
+        big[..buf.len()].copy_from_slice(&buf);
+        let obs = huge_entry_points(&big);
+        drop(big);
+        writeln!(out, "{}", json!({"sid": s.sid, "op": "Huge", "c": rl(&vec![0u8; m]), "gib": pad >> 30, "n": pad & ((1u64 << 30) - 1), "m": m, "obs": obs})).unwrap();
         n += 1;
         last = obs;
     }
@@ -574,7 +589,7 @@ pub fn generate(name: &str, count: usize, rng: &mut Rng, sink: &mut dyn FnMut(Se
                 let mut bytes = toks.concat();
                 bytes.extend(random_trailer(rng));
                 let chunks = chunking(&bytes, rng, 6);
-                sink(Session { sid: format!("v1good-{}", i), tag: json!({"g": "v1good"}), chunks });
+                sink(Session { sid: format!("v1good-{}", i), tag: json!({"g": "v1good"}), chunks, huge: None });
             }
         }
         // single-element corruptions (C12 antecedent is re-derived by the specification)
@@ -586,7 +601,7 @@ pub fn generate(name: &str, count: usize, rng: &mut Rng, sink: &mut dyn FnMut(Se
                     bytes.extend(random_trailer(rng));
                 }
                 let chunks = if rng.chance(1, 3) { split_each(&bytes) } else { vec![bytes.clone()] };
-                sink(Session { sid: format!("v1corrupt-{}", i), tag, chunks });
+                sink(Session { sid: format!("v1corrupt-{}", i), tag, chunks, huge: None });
             }
         }
         // structural damage: separators, line endings, truncation at field boundaries, length marks
@@ -613,7 +628,7 @@ pub fn generate(name: &str, count: usize, rng: &mut Rng, sink: &mut dyn FnMut(Se
                     bytes.extend(random_trailer(rng));
                 }
                 let chunks = chunking(&bytes, rng, 5);
-                sink(Session { sid: format!("v1struct-{}", i), tag: json!({"g": "v1struct"}), chunks });
+                sink(Session { sid: format!("v1struct-{}", i), tag: json!({"g": "v1struct"}), chunks, huge: None });
             }
         }
         // byte-level mutation of lines meant to be well formed: 1-3 random edits (insert / delete /
@@ -641,7 +656,7 @@ pub fn generate(name: &str, count: usize, rng: &mut Rng, sink: &mut dyn FnMut(Se
                     bytes.extend(random_trailer(rng));
                 }
                 let chunks = chunking(&bytes, rng, 4);
-                sink(Session { sid: format!("v1mutate-{}", i), tag: json!({"g": "v1mutate"}), chunks });
+                sink(Session { sid: format!("v1mutate-{}", i), tag: json!({"g": "v1mutate"}), chunks, huge: None });
             }
         }
         // byte-level mutation of binary headers meant to be well formed
@@ -668,7 +683,7 @@ pub fn generate(name: &str, count: usize, rng: &mut Rng, sink: &mut dyn FnMut(Se
                     bytes.extend(random_trailer(rng));
                 }
                 let chunks = if bytes.len() > 120 { let n = bytes.len(); let cuts: Vec<usize> = (1..18).chain([n - 1, 231, 232, 233]).collect(); split_at(&bytes, &cuts) } else { chunking(&bytes, rng, 5) };
-                sink(Session { sid: format!("v2mutate-{}", i), tag: json!({"g": "v2mutate"}), chunks });
+                sink(Session { sid: format!("v2mutate-{}", i), tag: json!({"g": "v2mutate"}), chunks, huge: None });
             }
         }
         // every truncation point of a line (token boundaries and inside tokens) x every way the
@@ -693,7 +708,7 @@ pub fn generate(name: &str, count: usize, rng: &mut Rng, sink: &mut dyn FnMut(Se
                         bytes.extend_from_slice(b"more");
                     }
                     let chunks = if rng.chance(1, 2) { split_each(&bytes) } else { vec![bytes.clone()] };
-                    sink(Session { sid: format!("v1trunc-{}-{}", i, k), tag: json!({"g": "v1trunc"}), chunks });
+                    sink(Session { sid: format!("v1trunc-{}-{}", i, k), tag: json!({"g": "v1trunc"}), chunks, huge: None });
                 }
             }
         }
@@ -728,7 +743,7 @@ pub fn generate(name: &str, count: usize, rng: &mut Rng, sink: &mut dyn FnMut(Se
                 }
                 let cuts: Vec<usize> = (100..bytes.len().min(112)).collect();
                 let chunks = split_at(&bytes, &cuts);
-                sink(Session { sid: format!("v1len-{}", i), tag: json!({"g": "v1len"}), chunks });
+                sink(Session { sid: format!("v1len-{}", i), tag: json!({"g": "v1len"}), chunks, huge: None });
             }
         }
         // VALID TCP6 lines of an exact total length 98..=107 (address spellings chosen to hit it:
@@ -767,7 +782,7 @@ pub fn generate(name: &str, count: usize, rng: &mut Rng, sink: &mut dyn FnMut(Se
                     _ => {}
                 }
                 let chunks = split_each(&bytes);
-                sink(Session { sid: format!("v1max-{}", i), tag: json!({"g": "v1max", "len": target}), chunks });
+                sink(Session { sid: format!("v1max-{}", i), tag: json!({"g": "v1max", "len": target}), chunks, huge: None });
                 i += 1;
             }
         }
@@ -781,7 +796,7 @@ pub fn generate(name: &str, count: usize, rng: &mut Rng, sink: &mut dyn FnMut(Se
                     bytes.extend_from_slice(*rng.pick(&pieces));
                 }
                 let chunks = chunking(&bytes, rng, 3);
-                sink(Session { sid: format!("v1junk-{}", i), tag: json!({"g": "v1junk"}), chunks });
+                sink(Session { sid: format!("v1junk-{}", i), tag: json!({"g": "v1junk"}), chunks, huge: None });
             }
         }
         // text with a multi-byte character right after the first CR, all accepted-line shapes
@@ -801,7 +816,7 @@ pub fn generate(name: &str, count: usize, rng: &mut Rng, sink: &mut dyn FnMut(Se
                     bytes.extend_from_slice(b"tail\r\n");
                 }
                 let chunks = chunking(&bytes, rng, 4);
-                sink(Session { sid: format!("v1cr-{}", i), tag: json!({"g": "v1cr"}), chunks });
+                sink(Session { sid: format!("v1cr-{}", i), tag: json!({"g": "v1cr"}), chunks, huge: None });
             }
         }
         "v2good" => {
@@ -816,14 +831,14 @@ pub fn generate(name: &str, count: usize, rng: &mut Rng, sink: &mut dyn FnMut(Se
                 } else {
                     chunking(&bytes, rng, 6)
                 };
-                sink(Session { sid: format!("v2good-{}", i), tag: json!({"g": "v2good"}), chunks });
+                sink(Session { sid: format!("v2good-{}", i), tag: json!({"g": "v2good"}), chunks, huge: None });
             }
         }
         "v2corrupt" => {
             for i in 0..count {
                 let (tag, bytes) = corrupt_v2(rng);
                 let chunks = if rng.chance(1, 4) && bytes.len() < 100 { split_each(&bytes) } else { vec![bytes.clone()] };
-                sink(Session { sid: format!("v2corrupt-{}", i), tag, chunks });
+                sink(Session { sid: format!("v2corrupt-{}", i), tag, chunks, huge: None });
             }
         }
         // an accepted header followed by more than 64 KiB in the same buffer
@@ -836,7 +851,47 @@ pub fn generate(name: &str, count: usize, rng: &mut Rng, sink: &mut dyn FnMut(Se
                 bytes.extend(std::iter::repeat(fill).take(extra));
                 let n = bytes.len();
                 let chunks = split_at(&bytes, &[hl.saturating_sub(1), hl, hl + 1, hl + 65535, hl + 65536, n - 1]);
-                sink(Session { sid: format!("bigtrail-{}", i), tag: json!({"g": "bigtrail"}), chunks });
+                sink(Session { sid: format!("bigtrail-{}", i), tag: json!({"g": "bigtrail"}), chunks, huge: None });
+            }
+        }
+        // buffers of 4 GiB and more: a head (complete v2 header, v2 header with part of its
+        // payload, v1 line, truncated v1 line) followed by zero bytes up to a total length whose
+        // low 32 bits are small - where a length squeezed into 32 bits goes wrong
+        "huge" => {
+            for i in 0..count {
+                let kind = i % 4;
+                let (head, need): (Vec<u8>, usize) = match kind {
+                    0 | 1 => {
+                        let mut h = random_v2_good(rng);
+                        while h.len() > 1200 {
+                            h = random_v2_good(rng);
+                        }
+                        let full = h.len();
+                        if kind == 1 && full > 17 {
+                            let keep = 16 + rng.below((full - 16) as u64) as usize;
+                            h.truncate(keep);
+                        }
+                        (h, full)
+                    }
+                    2 => {
+                        let l = random_line_tokens(rng).concat();
+                        let n = l.len();
+                        (l, n)
+                    }
+                    _ => {
+                        let l = random_line_tokens(rng).concat();
+                        let keep = rng.below(l.len() as u64 + 1) as usize;
+                        (l[..keep].to_vec(), 0)
+                    }
+                };
+                // total = 16 + k * 2^32 + j with j around 0 and around the declared length
+                let decl = need.saturating_sub(16) as u64;
+                let j = *rng.pick(&[0u64, 1, decl.saturating_sub(1), decl, decl + 1, 15, 16, 17]);
+                let k = 1 + rng.below(2);
+                let total = 16 + (k << 32) + j;
+                let pad = total - head.len() as u64;
+                let m = need.max(head.len()) - head.len() + 130;
+                sink(Session { sid: format!("huge-{}", i), tag: json!({"g": "huge"}), chunks: vec![head], huge: Some((pad, m)) });
             }
         }
         // control-byte pairs: count >= 65536 means all of them, otherwise axis-aligned + random
@@ -863,7 +918,7 @@ pub fn generate(name: &str, count: usize, rng: &mut Rng, sink: &mut dyn FnMut(Se
                 let l = lens[i % 3];
                 let body = distinct_body(l, rng);
                 let bytes = v2_header(vc, afp, l as u16, &body);
-                sink(Session { sid: format!("v2ctrl-{}", i), tag: json!({"g": "v2ctrl"}), chunks: vec![bytes] });
+                sink(Session { sid: format!("v2ctrl-{}", i), tag: json!({"g": "v2ctrl"}), chunks: vec![bytes], huge: None });
             }
         }
         // declared length vs bytes present
@@ -930,7 +985,7 @@ pub fn generate(name: &str, count: usize, rng: &mut Rng, sink: &mut dyn FnMut(Se
                     cuts.push(65534);
                 }
                 let chunks = split_at(&bytes, &cuts);
-                sink(Session { sid: format!("v2len-{}", i), tag: json!({"g": "v2len"}), chunks });
+                sink(Session { sid: format!("v2len-{}", i), tag: json!({"g": "v2len"}), chunks, huge: None });
             }
         }
         "v2sig" => {
@@ -940,7 +995,7 @@ pub fn generate(name: &str, count: usize, rng: &mut Rng, sink: &mut dyn FnMut(Se
                 let val = if count >= 12 * 255 { ((i / 12) % 256) as u8 } else { rng.next() as u8 };
                 bytes[pos] = val;
                 let chunks = if rng.chance(1, 3) { split_each(&bytes[..bytes.len().min(20)]) } else { vec![bytes.clone()] };
-                sink(Session { sid: format!("v2sig-{}", i), tag: json!({"g": "v2sig"}), chunks });
+                sink(Session { sid: format!("v2sig-{}", i), tag: json!({"g": "v2sig"}), chunks, huge: None });
             }
         }
         // what the crate's own builder emits for random call sequences, as parser input
@@ -963,7 +1018,7 @@ pub fn generate(name: &str, count: usize, rng: &mut Rng, sink: &mut dyn FnMut(Se
                 } else {
                     chunking(&bytes, rng, 5)
                 };
-                sink(Session { sid: format!("bparse-{}", i), tag: json!({"g": "bparse"}), chunks });
+                sink(Session { sid: format!("bparse-{}", i), tag: json!({"g": "bparse"}), chunks, huge: None });
             }
         }
         // both formats in one stream
@@ -980,7 +1035,7 @@ pub fn generate(name: &str, count: usize, rng: &mut Rng, sink: &mut dyn FnMut(Se
                     _ => { let k = rng.below(17) as usize; let mut v = bin[..k.min(bin.len())].to_vec(); v.extend(&line); v }
                 };
                 let chunks = chunking(&bytes, rng, 6);
-                sink(Session { sid: format!("mixed-{}", i), tag: json!({"g": "mixed"}), chunks });
+                sink(Session { sid: format!("mixed-{}", i), tag: json!({"g": "mixed"}), chunks, huge: None });
             }
         }
         "bytes" => {
@@ -988,7 +1043,7 @@ pub fn generate(name: &str, count: usize, rng: &mut Rng, sink: &mut dyn FnMut(Se
                 let n = rng.below(40) as usize;
                 let bytes = rng.bytes(n);
                 let chunks = chunking(&bytes, rng, 3);
-                sink(Session { sid: format!("bytes-{}", i), tag: json!({"g": "bytes"}), chunks });
+                sink(Session { sid: format!("bytes-{}", i), tag: json!({"g": "bytes"}), chunks, huge: None });
             }
         }
         other => panic!("unknown stream generator {}", other),
